@@ -113,7 +113,7 @@ def r2(run):
     # worker
     wb = None
     for c in threads:
-        x = strip(c.arg(0))
+        x = strip(c.arg(1) if c.fn == C.THREAD_BUILDER_SPAWN else c.arg(0))
         if x[0] == "agg" and x[1].get("def"):
             wb = run.facts.body(x[1]["def"])
     if wb is None:
